@@ -227,7 +227,7 @@ func (E *Engine) prepare2(hyps []*Term, goal *Term, hints map[string][]*Term) (g
 	}
 	var ground, quant []*Term
 	for _, h := range hyps {
-		h = E.negSkolemTop(h)
+		h = E.hypSkolem(h)
 		if h.Op == "forall" {
 			quant = append(quant, h)
 		} else if h.Op == "=>" && h.Args[1].Op == "forall" {
@@ -275,11 +275,20 @@ func (E *Engine) prepare2(hyps []*Term, goal *Term, hints map[string][]*Term) (g
 	if origGoal != nil {
 		collectSkolems(origGoal, skolems)
 	}
-	for round := 0; round < 2; round++ {
+	for _, h := range ground {
+		if len(skolems) > 12 {
+			break
+		}
+		collectSkolems(h, skolems)
+	}
+	for round := 0; round < 3; round++ {
 		keys := sortedBySize(cands)
 		limit1, limit2 := 30, 8
 		if round == 1 {
 			limit1, limit2 = 14, 5
+		}
+		if round == 2 {
+			limit1, limit2 = 8, 3
 		}
 		if len(keys) > limit1 {
 			keys = keys[:limit1]
@@ -440,6 +449,35 @@ func sortedBySize(m map[string]*Term) []string {
 	return ks
 }
 
+// hypSkolem: existentials in positive positions of a hypothesis are replaced by
+// fresh constants (top level, under the consequent of an implication, under
+// conjunctions and in the branches of a disjunction).
+func (E *Engine) hypSkolem(h *Term) *Term {
+	switch h.Op {
+	case "exists":
+		m := map[string]*Term{}
+		for _, b := range h.Bound {
+			m[b.Name] = E.fresh("sk."+strings.SplitN(b.Name, "!", 2)[0], b.S)
+		}
+		return E.hypSkolem(Subst(h.Args[0], m))
+	case "=>":
+		return Implies(h.Args[0], E.hypSkolem(h.Args[1]))
+	case "and":
+		out := make([]*Term, len(h.Args))
+		for i, a := range h.Args {
+			out[i] = E.hypSkolem(a)
+		}
+		return And(out...)
+	case "or":
+		out := make([]*Term, len(h.Args))
+		for i, a := range h.Args {
+			out[i] = E.hypSkolem(a)
+		}
+		return Or(out...)
+	}
+	return h
+}
+
 func (E *Engine) negSkolemTop(h *Term) *Term {
 	if h.Op == "exists" {
 		return E.negSkolem(h)
@@ -568,7 +606,7 @@ func firstLines(s string, n int) string {
 	return strings.Join(l, "\n")
 }
 
-const maxScript = 1500 * 1024
+const maxScript = 6000 * 1024
 
 // Discharge runs every query of every obligation.
 func (E *Engine) Discharge(par int) {
